@@ -370,7 +370,7 @@ func runC08(w *World, r *Report) {
 	r.rule("drain", "after a successful call of a lock-holding stream every path to a function exit (or back to the call) crosses the exhausted edge of a receive on the data channel, directly or in a helper that drains it", 5)
 	r.rule("no-send-on-stop", "no send on the stop channel of a stream whose producer closes it (send after close panics; a send does not release a parked producer)", 0)
 	r.rule("reentry-under-ledger-lock", "a consumption region that re-enters the graph lock holds the ledger lock, so no graph writer can queue between producer and consumer", 5)
-	r.rule("graph-writers-under-ledger-lock", "every call that takes the graph lock exclusively holds AccountingBook.mux exclusively", 10)
+	r.rule("graph-writers-under-ledger-lock", "every call that takes the graph lock exclusively holds AccountingBook.mux exclusively", 6)
 	r.rule("no-foreign-blocking-op", "no blocking channel operation on another channel inside a consumption region or while a repo lock is held, unless it is a select with a ctx.Done()/default arm", 0)
 
 	acctFns := w.RepoFuncs("accountant")
@@ -590,8 +590,69 @@ func runC08(w *World, r *Report) {
 		})
 	}
 
+	// no lock is acquired while it may already be held by the same goroutine
+	r.rule("no-reentrant-lock", "no Lock/RLock on a repo mutex is executed while the same mutex is already held on the calling path (a recursive RLock deadlocks as soon as a writer queues in between; a recursive Lock deadlocks at once)", 10)
+	callSites := map[*ssa.Function][]ssa.CallInstruction{}
+	for _, fn := range allFns {
+		instrsOf(fn, func(in ssa.Instruction) {
+			c, ok := in.(ssa.CallInstruction)
+			if !ok {
+				return
+			}
+			if _, isGo := in.(*ssa.Go); isGo {
+				return
+			}
+			if cal := c.Common().StaticCallee(); cal != nil && isRepoFunc(cal) {
+				callSites[cal] = append(callSites[cal], c)
+			}
+			for _, op := range c.Operands(nil) { // callbacks run inside the call
+				if *op != nil {
+					if cl := closureOf(*op); cl != nil {
+						callSites[cl] = append(callSites[cl], c)
+					}
+				}
+			}
+		})
+	}
+	var heldByCaller func(fn *ssa.Function, id string, depth int, seen map[*ssa.Function]bool) string
+	heldByCaller = func(fn *ssa.Function, id string, depth int, seen map[*ssa.Function]bool) string {
+		if depth > 4 || seen[fn] {
+			return ""
+		}
+		seen[fn] = true
+		for _, cs := range callSites[fn] {
+			held := li.At(cs)
+			if !held.top && held.Has(id, "") {
+				return shortFn(cs.Parent()) + " at " + lineOf(w, cs)
+			}
+			if via := heldByCaller(cs.Parent(), id, depth+1, seen); via != "" {
+				return via + " → " + shortFn(cs.Parent())
+			}
+		}
+		return ""
+	}
+	for _, fn := range allFns {
+		instrsOf(fn, func(in ssa.Instruction) {
+			c, ok := in.(*ssa.Call)
+			if !ok {
+				return
+			}
+			op, mode, id, ok := lockOp(c)
+			if !ok || op != "lock" {
+				return
+			}
+			why := ""
+			if held := li.At(c); !held.top && held.Has(id, "") {
+				why = "already held here: " + held.String()
+			} else if via := heldByCaller(fn, id, 0, map[*ssa.Function]bool{}); via != "" {
+				why = "reached with " + id + " already held from " + via
+			}
+			r.check(why == "", "no-reentrant-lock", shortFn(fn)+"/"+mode+":"+id, lineOf(w, c), "the mutex is not held on any calling path when it is acquired", why)
+		})
+	}
+
 	// rule 7: locks released on all paths
-	r.rule("lock-released", "every Lock/RLock on a repo mutex is followed on all paths by the matching unlock (or a deferred one)", 10)
+	r.rule("lock-released", "every Lock/RLock on a repo mutex is followed on all paths by the matching unlock (or a deferred one)", 6)
 	for _, fn := range allFns {
 		instrsOf(fn, func(in ssa.Instruction) {
 			c, ok := in.(*ssa.Call)
